@@ -160,6 +160,8 @@ def _case(rng, kind, blocks, cplx, batched, x0kind=None, maxit=None, tol=None):
         b = _rand_vec(rng, N, cplx)
         x0 = None if x0kind == 'none' else ([[0, 0]] * N if cplx else [0] * N) if x0kind == 'zero' else _rand_vec(rng, N, cplx, nonzero=False)
     dim = 2 * N if cplx else N
+    # data of any magnitude: 2**-60 ~ 1e-18 puts |r|^2 below eps^2, 2**-200 far below; 2**70 far above 1
+    case['scale_exp'] = rng.choice([0, 0, 0, 20, 60, 200, -70])
     case.update({'b': b, 'x0': x0,
                  'maxit': maxit if maxit is not None else rng.choice([0, 1, 1, 2, 2, 3, max(1, dim - 1), dim, dim, dim + 1, dim + 2]),
                  'tol': tol if tol is not None else rng.choice(TOLS)})
@@ -264,19 +266,28 @@ def impl_cg(case):
     from mrpro.algorithms.optimizers import cg
     from mrpro.operators import EinsumOp
     H, b, x0 = _tensors(case)
+    # CG commutes with scaling the data: b, x0 and the (absolute) tolerance are multiplied by s = 2**-scale_exp (an exact operation in binary
+    # floating point) and iterates/residuals are divided by s again, so the model and the oracle see the unscaled system.
+    s = 2.0 ** (-case.get('scale_exp', 0))
+    b = b * s
+    x0 = None if x0 is None else x0 * s
     op = EinsumOp(H, '... i j, ... j -> ... i')
     keep = [t.clone() if t is not None else None for t in (H, b, x0)]
     vers = [t._version if t is not None else None for t in (H, b, x0)]
-    trace = []
+    trace, handed = [], []
 
     def cb(status):
-        trace.append([_flat(status['solution'][0]), _flat(status['residual']), int(status['iteration_number'])])
+        trace.append([_flat(status['solution'][0] / s), _flat(status['residual'] / s), int(status['iteration_number'])])
+        handed.append((status['solution'][0], status['residual']))     # kept by reference: a consumer may look at the history afterwards
 
-    x = cg(op, b, x0, case['maxit'], case['tol'], cb)
+    x = cg(op, b, x0, case['maxit'], case['tol'] * s, cb)
+    same = lambda u, v: np.array_equal(np.array(u), np.array(v), equal_nan=True)  # noqa: E731
+    history_intact = all(same(_flat(xk / s), t[0]) and same(_flat(rk / s), t[1]) for (xk, rk), t in zip(handed, trace))
     unchanged = all((t is None) or (torch.equal(t, k) and t._version == v) for t, k, v in zip((H, b, x0), keep, vers))
     unchanged = unchanged and torch.equal(op.matrix.detach(), keep[0])
-    return {'x': _flat(x), 'trace': trace, 'finite': bool(torch.isfinite(torch.view_as_real(x) if x.is_complex() else x).all()),
-            'unchanged': bool(unchanged), 'shape_ok': list(x.shape) == list(b.shape), 'dtype_ok': x.dtype == b.dtype}
+    return {'x': _flat(x / s), 'trace': trace, 'finite': bool(torch.isfinite(torch.view_as_real(x) if x.is_complex() else x).all()),
+            'unchanged': bool(unchanged), 'shape_ok': list(x.shape) == list(b.shape), 'dtype_ok': x.dtype == b.dtype,
+            'history_intact': bool(history_intact)}
 
 
 # ------------------------------------------------------------------------------------------------
@@ -384,6 +395,9 @@ def oracle_cg(case, obs):
         return 'shape mismatch between initial_value and right_hand_side accepted'
     if not obs['unchanged']:
         return 'an input tensor (operator matrix, right_hand_side or initial_value) was modified (values or ._version)'
+    if not obs.get('history_intact', True):
+        return ('the iterates x_k / residuals handed to the callback were overwritten by later iterations: a callback that keeps them sees '
+                'the same values for every k (scale 2**-%d)' % case.get('scale_exp', 0))
     H = dense(case)
     b = np.array([_c(v) for v in case['b']])
     x0 = b.copy() if case['x0'] is None else np.array([_c(v) for v in case['x0']])
@@ -451,7 +465,9 @@ def oracle_cg(case, obs):
 
 
 def descr_cg(case):
-    return {k: case[k] for k in ('kind', 'complex', 'batched', 'x0kind', 'maxit', 'tol')}
+    d = {k: case[k] for k in ('kind', 'complex', 'batched', 'x0kind', 'maxit', 'tol')}
+    d['scale_exp'] = case.get('scale_exp', 0)
+    return d
 
 
 def _nontrivial(case):
